@@ -28,6 +28,12 @@ def cases():
     return [
         ("eigh eigenvalues", lambda x: np.linalg.eigh(x)[0], sym, symdir, 3),
         ("eigh eigenvectors (sign-invariant: v*v)", lambda x: np.linalg.eigh(x)[1] ** 2, sym, symdir, 3),
+        ("eigh UPLO='L' on a non-symmetric input (only the lower triangle is read)", lambda x: np.linalg.eigh(x, "L")[0], gen, gen, 3),
+        ("eigh UPLO='U' on a non-symmetric input", lambda x: np.linalg.eigh(x, "U")[0], gen, gen, 3),
+        ("eigh UPLO='l' (NumPy accepts lower case)", lambda x: np.linalg.eigh(x, "l")[0], gen, gen, 3),
+        ("eigh UPLO='u' keyword", lambda x: np.linalg.eigh(x, UPLO="u")[0], gen, gen, 3),
+        ("eigh eigenvectors UPLO='U' non-symmetric input", lambda x: np.linalg.eigh(x, "U")[1] ** 2, gen, gen, 3),
+        ("svd full_matrices=True (default) singular vectors: gradient not implemented", lambda x: np.linalg.svd(x)[0] ** 2, rect, rect, 2),
         ("svd singular values", lambda x: np.linalg.svd(x, compute_uv=False), gen, gen, 3),
         ("svd u (sign-invariant)", lambda x: np.linalg.svd(x, full_matrices=False)[0] ** 2, gen, gen, 3),
         ("svd vt (sign-invariant)", lambda x: np.linalg.svd(x, full_matrices=False)[2] ** 2, gen, gen, 3),
@@ -49,7 +55,13 @@ def run(seed=0):
     from autograd.differential_operators import make_jvp_reversemode
 
     out = []
+    err_state0 = dict(onp.geterr())
     for name, f, mk, mkdir, n in cases():
+        if dict(onp.geterr()) != err_state0:
+            out.append({"key": "LAPACK float64 probe | global NumPy error state (np.geterr) after the previous case", "status": "violation",
+                        "detail": "np.geterr() changed from %r to %r during the differentiations before '%s' (a rule left seterr modified, e.g. on an exception path)" % (err_state0, dict(onp.geterr()), name),
+                        "paths": 1, "queries": 0, "validated": 1, "verdicts": {}, "cex": {"env": {}, "mode": "lapack"}})
+            onp.seterr(**err_state0)
         rs = onp.random.RandomState(seed + 11)
         fails = {"vjp": 0, "rev-over-rev": 0, "double-vjp at zero cotangent": 0}
         info = {}
@@ -98,4 +110,13 @@ def run(seed=0):
                             "validated": tried, "verdicts": {}, "cex": {"env": {}, "mode": "lapack"}, "extra": {"decided_by": "float64 probe"}})
             else:
                 out.append({"key": key, "status": "holds", "detail": "", "paths": tried, "queries": 0, "validated": tried, "verdicts": {}, "extra": {"decided_by": "float64 probe"}})
+    ok = dict(onp.geterr()) == err_state0 and not any("np.geterr" in r["key"] for r in out)
+    if dict(onp.geterr()) != err_state0:
+        out.append({"key": "LAPACK float64 probe | global NumPy error state (np.geterr) after the previous case", "status": "violation",
+                    "detail": "np.geterr() changed from %r to %r during the last case" % (err_state0, dict(onp.geterr())), "paths": 1, "queries": 0, "validated": 1, "verdicts": {}, "cex": {"env": {}, "mode": "lapack"}})
+        onp.seterr(**err_state0)
+    if ok:
+        nraise = len({r["key"].split(" | ")[1] for r in out if r["status"] == "raises"})
+        out.append({"key": "LAPACK float64 probe | global NumPy error state (np.geterr) unchanged across all cases", "status": "holds",
+                    "detail": "%d cases, %d of them raising inside the forward or backward pass" % (len(cases()), nraise), "paths": 1, "queries": 0, "validated": 1, "verdicts": {}})
     return out
